@@ -336,7 +336,9 @@ class Text:
         return mk(ps)
 
     def __getattr__(self, name):
-        raise Unsupported('str method %r on symbolic str' % name)
+        if hasattr(_str, name):
+            raise Unsupported('str method %r on symbolic str' % name)
+        raise AttributeError("'str' object has no attribute %r" % name)
 
     def __fspath__(self):
         raise Unsupported('fspath of symbolic str')
